@@ -295,8 +295,6 @@ void OrderedSimplex::fireParameterChanged(const ParameterList& pl)
 
 void OrderedSimplex::setFrequencies(const std::vector<double>& vValues)
 {
-  vValues_ = vValues;
-
   auto dim = vValues.size();
   Vdouble vprob(dim);
 
@@ -307,4 +305,7 @@ void OrderedSimplex::setFrequencies(const std::vector<double>& vValues)
 
   vprob[dim - 1] = static_cast<double>(dim) * vValues[dim - 1];
   Simplex::setFrequencies(vprob);
+
+  // only once the vector has been accepted (the call above throws otherwise)
+  vValues_ = vValues;
 }
